@@ -228,6 +228,11 @@ def merge_aoh(L, R, pol, path):
             if idkey in lrec and lrec[idkey] == rec[idkey]:
                 target = i
                 break
+            if idkey in lrec and lrec[idkey][0] != rec[idkey][0] and \
+                    lrec[idkey][1:] == rec[idkey][1:]:
+                # 1 / true / 1.0: whether identities of different types that
+                # Python calls equal denote the same record is not stated
+                raise Unspecified("identity values equal across types")
         if target is None:
             out.append(e)
         else:
